@@ -171,6 +171,26 @@ pub fn edit_signed(signed: &mut Value, field: &str, scn: &Value, rng: &mut impl 
             if rng.gen_bool(0.5) { swap_char(signed, false, '\u{141}', 'A') } else { swap_char(signed, false, '\u{4e42}', 'B') }
         }
         "high_twin_key" => swap_char(signed, true, '\u{141}', 'A'),
+        // a SIBLING member is added whose name differs from an existing member's only in that character being
+        // exchanged for its low-byte / low-16-bit twin (U+0141 or U+10041 -> A); it carries the same value
+        "twin_member_add8" | "twin_member_add16" => {
+            let from = if field.ends_with('8') { '\u{141}' } else { '\u{10041}' };
+            fn add_twin(v: &mut Value, from: char) -> bool {
+                match v {
+                    Value::Object(o) => {
+                        if let Some(k) = o.keys().find(|k| k.contains(from)).cloned() {
+                            let val = o[&k].clone();
+                            o.insert(k.replacen(from, "A", 1), val);
+                            return true;
+                        }
+                        o.iter_mut().any(|(_, x)| add_twin(x, from))
+                    }
+                    Value::Array(a) => a.iter_mut().any(|x| add_twin(x, from)),
+                    _ => false,
+                }
+            }
+            add_twin(signed, from)
+        }
         "high_twin_astral" => swap_char(signed, false, '\u{1f643}', 'C'),
         "name" => {
             if is_link {
@@ -643,8 +663,8 @@ impl Ctx {
         let kind = scn["doc"].as_str().unwrap();
         let s = instantiate(&scn["s"], &mut self.rng);
         // the "high twin" edits need characters beyond U+00FF in the content to begin with
-        let twin = scn["ops"].as_array().unwrap().iter().any(|o| o["op"] == "edit" && o["field"].as_str().map(|f| f.starts_with("high_twin")).unwrap_or(false));
-        let s = if twin { format!("{s}\u{141}\u{4e42}\u{1f643}") } else { s };
+        let twin = scn["ops"].as_array().unwrap().iter().any(|o| o["op"] == "edit" && o["field"].as_str().map(|f| f.starts_with("high_twin") || f.starts_with("twin_member")).unwrap_or(false));
+        let s = if twin { format!("{s}\u{141}\u{4e42}\u{1f643}\u{10041}") } else { s };
         let base = if scn["near"] == true {
             // string near-collision scenario: the string field holds exactly `from`
             let from = instantiate(&scn["from"], &mut self.rng);
